@@ -34,7 +34,7 @@ build_bins() {
 }
 
 needs_bins() {
-  case "$1" in C01|C06|C07|C20) return 0;; *) return 1;; esac
+  case "$1" in C01|C06|C07|C17|C20) return 0;; *) return 1;; esac
 }
 
 case "${1:-}" in
